@@ -31,7 +31,7 @@ RULE = ("D: all (n, n_jobs) with n<=64, n_jobs in -4..70; C: 39 neighbourhood co
 BLOCK = {"D": 1, "C": 39, "A": 96, "B": 12, "E": 60, "F": 44}
 ORDER = ["D", "C", "A", "B", "E", "F"]
 TOTAL = sum(BLOCK.values())
-BUDGET = {"quick": {"cases": TOTAL, "shards": 12}, "thorough": {"cases": TOTAL * 12, "shards": 16, "wall_s": 2700}}
+BUDGET = {"quick": {"cases": TOTAL, "shards": 12}, "thorough": {"cases": TOTAL * 12, "shards": 16, "wall_s": 3600}}
 MIN = {"quick": {"evaluations": 2000, "nontrivial": 150,
                  "counters": {"partitions_enumerated": 500, "partition_fn_checks": 4000, "thread_runs": 100,
                               "overlapping_interleavings": 20, "task_orders": 150, "process_backend_cases": 6}},
